@@ -262,6 +262,13 @@ func RunExpire(seed int64, p ExpProfile) (out []Ev) {
 			if len(long) > 0 {
 				extend(long[rnd.Intn(len(long))], time.Minute)
 			}
+		case 3: // a late row WITHOUT time-to-live: it usually takes the offset of a row that has expired, and must stay
+			if ms() > 600 && ms() < p.RunMs-1000 {
+				o, err := P.Insert(func(r column.Row) error { r.SetInt("a", -1); return nil })
+				if err == nil {
+					none = append(none, o)
+				}
+			}
 		}
 		poll("P", P)
 		if !snapped && ms() > snapAt {
